@@ -3,8 +3,10 @@
    Prints "<model result> | <oracle result>": the model column runs the extracted
    process_response over the history, the oracle column the extracted token bucket of
    Spec/RrlBucketS.v (or `reject` when the documented parameter rules refuse the
-   configuration).  With `--release` the model column uses the pre-fix wrapping
-   arithmetic variant (only meaningful against a tree without the fix). *)
+   configuration).  `--release` (thorough tier: the harness built without overflow checks)
+   changes nothing on the model side: the repaired code has no operation that can overflow
+   (c26_count_bound), so both builds must behave like the one model.  `--old-wrapping` runs
+   the pre-fix wrapping arithmetic instead (what a release build of the unfixed tree does). *)
 open Qvutil
 open BinNums
 
@@ -86,7 +88,7 @@ let vletter slip (v : RrlBucketS.verdict) = match v with
 let u32_max = n_of_dec "4294967295"
 let le a b = BinNat.N.leb a b
 
-let release = Array.length Sys.argv > 1 && Sys.argv.(1) = "--release"
+let old_wrapping = Array.exists (fun a -> a = "--old-wrapping") Sys.argv
 let t0 = n_of_dec "1000000000"
 
 (* one request of a mixed history: letter of the model's context *)
@@ -164,7 +166,7 @@ let () = run_lines (fun f ->
       | Stdlib.Error e -> e
       | Stdlib.Ok p ->
         let c = mk_ctx kind edns (Rrl.V4 (Stdlib.List.map n_of_int [192; 0; 2; 77])) Rrl.Udp in
-        let a = if release then Rrl.OldWrapping else Rrl.Fixed in
+        let a = if old_wrapping then Rrl.OldWrapping else Rrl.Fixed in
         (match Rrl.run_history_gen hname hkey a p (Rrl.rrl_new p t0) c hist with
          | Res.Ok (_, cs) -> "ok " ^ String.concat "" (Stdlib.List.map (letter slip_i) cs)
          | Res.Err () -> "err"
